@@ -49,7 +49,7 @@ def declare(spec):
     # ---- Slotted: the same generator over (slots, next_slot_sizes); next_slot_sizes is slot_sizes rotated by one
     # (built in Slotted.__init__, not verified: I-CFG), so the size yielded with the date of slot k is the size of slot k
     M["slot_cfg_ok"] = ("lambda s: len(s.slots) > 0 and len(s.next_slot_sizes) == len(s.slots) "
-                        "and forall_in(s.slots, lambda b: is_fin(b)) and is_fin(s.offset) and is_fin(s.cyclelength)")
+                        "and forall_in(s.slots, lambda b: is_fin(b)) and is_fin(s.offset) and is_fin(s.cyclelength) and s.c == 0")
     M["slot_ok"] = ("lambda s: slot_cfg_ok(s) and gen_pos(s.schedule_generator) >= 0 "
                     "and ref_eq(gen_arg(s.schedule_generator, 'self'), s) and ref_eq(gen_arg(s.schedule_generator, 'boundaries'), s.slots) "
                     "and ref_eq(gen_arg(s.schedule_generator, 'values'), s.next_slot_sizes) and gen_arg(s.schedule_generator, 'offset') == s.offset")
